@@ -1880,7 +1880,8 @@ def note_array_from_part_list(
         divs_per_parts = [
             part_na[0]["divs_pq"] for part_na in note_array if len(part_na)
         ]
-        lcm = np.lcm.reduce(divs_per_parts)
+        # (no part has a note: nothing to rescale)
+        lcm = np.lcm.reduce(divs_per_parts) if len(divs_per_parts) > 0 else 1
         time_multiplier_per_part = [int(lcm / d) for d in divs_per_parts]
         # (parts without notes have no divs_pq entry: pair the multipliers
         # with the non-empty arrays only)
